@@ -392,7 +392,7 @@ def finish(pid, tier, seed, level, total, coverage, assumptions, t0, collect=Non
                 % (pid, kfid, info["n"])
             )
     # write replays for unknown failures (bounded), simplest (= earliest key order) first
-    unknown.sort(key=lambda f: (len(f[0]), f[0], f[1] or 0))
+    unknown.sort(key=lambda f: (f[0].count(">") + f[0].count("["), len(f[0]), f[0], f[1] or 0))
     shown = 0
     by_key = collections.OrderedDict()
     for f in unknown:
